@@ -761,3 +761,105 @@ def rule_tunables(ctx):
         r.violate(cb.name, "trials", "Global::collect no longer pops the global queue", cb.loc(0))
     r.require(n, 3, "tunables")
     return r
+
+
+def rule_dbg_pure(ctx):
+    """`debug_assert!(..)` disappears from a release build with everything its condition does.  The test suite runs with
+    debug assertions on, so a compare_exchange, a counter update or a deferral written inside one is executed in every
+    test and in no production build."""
+    from .sym import prog_purity, PURE_EXTERNAL
+    from .mir import Callee
+    r = RuleResult("DBG-PURE", ["C04", "C05", "C13", "C15", "C16"],
+                   "the condition of a debug_assert! only reads: every call in the region that exists only under "
+                   "cfg!(debug_assertions) is pure, a load, or the panic machinery")
+    prog = ctx.prog
+    pure = prog_purity(prog)
+    READS = ("std::sync::atomic::Atomic::load", "atomic::Atomic::load", "std::cell::Cell::get", "std::cell::UnsafeCell::get",
+             "std::cell::RefCell::borrow", "std::vec::Vec::len", "std::vec::Vec::is_empty", "std::vec::Vec::capacity",
+             "std::sync::Arc::strong_count", "std::thread::LocalKey::with", "std::thread::LocalKey::try_with")
+    memo = {}
+
+    def readonly(target, depth=0):
+        nt = norm(target or "")
+        if nt.startswith(("core::panicking::", "std::fmt::", "core::fmt::", "std::panicking::")):
+            return True
+        if target in pure or nt in pure or nt in PURE_EXTERNAL or nt in READS:
+            return True
+        if nt.endswith((" as std::ops::Deref>::deref", " as std::cmp::PartialEq>::eq", " as std::cmp::PartialEq>::ne",
+                        " as std::fmt::Debug>::fmt", " as std::clone::Clone>::clone")) and target not in prog.bodies:
+            return True
+        if target in memo:
+            return memo[target]
+        b = prog.bodies.get(target)
+        if b is None or depth > 6:
+            return False
+        memo[target] = True     # (recursion: optimistic)
+        ok = all(readonly(c.target, depth + 1) for (_, _, c) in b.calls()) and \
+            all(readonly(x.name, depth + 1) for x in prog.closures_of(target))
+        # no stores through pointers either
+        if ok:
+            for bi in b.reachable():
+                for st in b.blocks[bi]["stmts"]:
+                    if st["k"] == "assign" and "deref" in st["place"]["proj"]:
+                        ok = False
+        memo[target] = ok
+        return ok
+
+    def succs(b, v):
+        tt = b.blocks[v]["term"]
+        k = tt["k"]
+        if k == "call":
+            return [tt["target"]] if tt.get("target") is not None else []
+        if k == "switch":
+            return [x for _, x in tt["targets"]] + [tt["otherwise"]]
+        if k in ("goto", "drop", "assert"):
+            return [tt["target"]]
+        return []
+
+    def reach(b, start, avoid=None):
+        seen, work = set(), [start]
+        while work:
+            v = work.pop()
+            if v in seen or v == avoid:
+                continue
+            seen.add(v)
+            work.extend(succs(b, v))
+        return seen
+    nreg = 0
+    for name, b in sorted(prog.bodies.items()):
+        for bi, blk in enumerate(b.blocks):
+            t = blk["term"]
+            sp = t.get("span") or {}
+            if t["k"] != "switch" or not (sp.get("mac") or "").startswith("debug_assert"):
+                continue
+            d = t["discr"].get("move") or t["discr"].get("copy")
+            isconst = "const" in t["discr"]
+            if d and not d["proj"]:
+                for st in blk["stmts"]:
+                    if st["k"] == "assign" and st["place"]["local"] == d["local"] and not st["place"]["proj"] and \
+                            st["rv"]["k"] == "use" and "const" in st["rv"]["op"]:
+                        isconst = True
+            if not isconst:
+                continue
+            nreg += 1
+            r.functions.add(prog.home(name))
+            en = t["otherwise"]
+            region = reach(b, en) - reach(b, 0, avoid=en)
+            bad = []
+            for v in sorted(region):
+                tt = b.blocks[v]["term"]
+                if tt["k"] == "call":
+                    c = Callee(tt)
+                    if c.target is None or not readonly(c.target):
+                        bad.append((v, c.target or "<indirect>"))
+                for st in b.blocks[v]["stmts"]:
+                    if st["k"] == "assign" and "deref" in st["place"]["proj"]:
+                        bad.append((v, "<store through a pointer>"))
+            ok = not bad
+            r.instance("%s: debug_assert! at line %s only reads" % (prog.home(name).split("::")[-1], sp.get("line")), ok)
+            for (v, tg) in bad[:2]:
+                r.violate(prog.home(name), "effect:" + norm(tg).split("::")[-1], "`%s` is called inside the condition of a "
+                          "debug_assert!: it runs in the build the tests use and vanishes from a release build" % norm(tg),
+                          b.loc(v))
+    r.require(nreg, 10, "debug_assert! regions")
+    return r
